@@ -237,6 +237,25 @@ def screening_runs(rep, rng, dev, tier):
                               {"seeded_from_screening_run": seed is not None, "max_abs": mx})
             rep.count(1)
             rep.nontrivial(("noscreen", seed is not None))
+        # history form: a screening run SEEDED from an earlier screening solution must leave that solution as it was - its
+        # stored potential has to keep reproducing the sum over its own stored currents
+        if last_sol is not None:
+            d0 = last_sol.tdgl_data
+            snap = {nm: np.array(getattr(d0, nm), copy=True) for nm in ("induced_vector_potential", "supercurrent", "normal_current", "psi", "mu")}
+            opts = runs.make_options(td, solve_time=0.03, dt_init=2e-3, dt_max=2e-2, include_screening=True, screening_tolerance=1e-2,
+                                     save_every=3, output_file=td + "/seeded_scr.h5")
+            try:
+                runs.traced_solve(dev, opts, A=0.3, currents={"source": 1.0, "drain": -1.0}, seed_solution=last_sol)
+            except RuntimeError as e:
+                if "Screening calculation failed to converge" not in str(e):
+                    raise
+            changed = {nm: float(np.max(np.abs(np.asarray(getattr(last_sol.tdgl_data, nm)) - v))) for nm, v in snap.items()
+                       if not np.array_equal(np.asarray(getattr(last_sol.tdgl_data, nm)), v)}
+            if changed:
+                rep.violation("a screening run seeded from an earlier solution overwrote that solution's stored fields: its stored "
+                              "induced potential no longer belongs to its stored currents", {"max_abs_change": changed})
+            rep.count(1)
+            rep.nontrivial(("seeded-screening",))
 
 
 def run(rep: common.Report, tier: str, seed: int, replay=None) -> int:
